@@ -92,6 +92,20 @@ fn ingredient(r: &mut Rng, seen: &mut Vec<String>, invalid: bool) -> String {
         // grow, fill up, spill or wrap need a supply of distinct keys
         let n = if r.chance(1, 5) {
             format!("{} no {}", r.pick_str(NAMES), r.below(1_000_000))
+        } else if r.chance(1, 25) {
+            // long names around the lengths where inline buffers, bit masks and length-keyed
+            // filters change behaviour (15/16, 31/32, 63/64, 127/128, 255/256); names of one
+            // length share everything but the last word, so imprecise keys collide
+            let target = *r.pick(&[15usize, 16, 23, 24, 31, 32, 33, 63, 64, 65, 127, 128, 129, 255, 256, 257]);
+            let mut n = r.pick_str(NAMES).to_string();
+            while n.len() + 5 < target {
+                n.push_str(" very");
+            }
+            while n.len() + 1 < target {
+                n.push('x');
+            }
+            n.push(*r.pick(&['a', 'b', 'c']));
+            n
         } else {
             r.pick_str(NAMES).to_string()
         };
